@@ -6,15 +6,25 @@ open GV GV.Ser
 
 /-! ### `MerkleProof::read` -/
 
-theorem bnd_merkleProofNoPrealloc (rd : Rdr) : Bnd 1 0 32 (merkleProofNoPrealloc rd) :=
-  Bnd.bind (bnd_rU64 1) fun mmrSize =>
+/-- `MerkleProof::read` (repaired): the pre-allocation is at most 64 hashes = 2048 bytes -/
+theorem bnd_merkleProof (rd : Rdr) : Bnd 1 2048 32 (merkleProof rd) :=
+  (Bnd.bind (bnd_rU64 1) fun mmrSize =>
     Bnd.bind (bnd_rU64 1) fun pathLen =>
-    Bnd.bind (Bnd.readN (bnd_rHash rd) pathLen) fun path => Bnd.pure 1 (MerkleProof.mk mmrSize path)
+    Bnd.withCapacity (A := 2048)
+      (Bnd.bind (Bnd.readN (bnd_rHash rd) pathLen) fun path => Bnd.pure 1 (MerkleProof.mk mmrSize path))
+      (min pathLen MERKLE_PREALLOC) 32
+      (by have : MERKLE_PREALLOC = 64 := rfl
+          omega)).mono (Nat.le_refl 1) (by decide) (by decide)
 
-theorem noPanic_merkleProofNoPrealloc (rd : Rdr) : NoPanic (merkleProofNoPrealloc rd) :=
+theorem noPanic_merkleProof (rd : Rdr) : NoPanic (merkleProof rd) :=
   NoPanic.bind noPanic_rU64 fun mmrSize =>
     NoPanic.bind noPanic_rU64 fun pathLen =>
-    NoPanic.bind (NoPanic.readN (noPanic_rHash rd) pathLen) fun path => NoPanic.pure (MerkleProof.mk mmrSize path)
+    NoPanic.withCapacity
+      (NoPanic.bind (NoPanic.readN (noPanic_rHash rd) pathLen) fun path => NoPanic.pure (MerkleProof.mk mmrSize path))
+      (min pathLen MERKLE_PREALLOC) 32
+      (by have : MERKLE_PREALLOC = 64 := rfl
+          have : ISIZE_MAX = 9223372036854775807 := by decide
+          omega)
 
 /-- the 16-byte input `mmr_size = 0, path_len = n` -/
 def mpWitness (n : Nat) : Bytes := writeU64 0 ++ writeU64 n
@@ -36,68 +46,58 @@ theorem rU64_write_nil (n : Nat) (h : n < 2^64) : rU64 (writeU64 n) = .ok n [] 0
   have := rU64_write n h []
   rwa [List.append_nil] at this
 
-/-- what `MerkleProof::read` does on `mpWitness n`, for every `0 < n < 2^64` -/
+/-- what the *unrepaired* `MerkleProof::read` did on `mpWitness n`, for every `0 < n < 2^64` -/
 theorem merkleProof_on_witness (rd : Rdr) (n : Nat) (h0 : 0 < n) (h : n < 2^64) :
-    merkleProof rd (mpWitness n) =
+    merkleProofUnrepaired rd (mpWitness n) =
       if n * 32 > ISIZE_MAX then .panic .capacityOverflow 0
       else .err .ioEof (n * 32 + (match rd with | .bin => 32 | .buf => 0)) := by
+  have e1 : rU64 (mpWitness n) = .ok 0 (writeU64 n) 0 := rU64_write 0 (Nat.pow_pos (by omega)) _
+  have e2 := rU64_write_nil n h
+  have e3 := readN_hash_nil rd n h0
+  unfold merkleProofUnrepaired
+  rw [e1, bind_ok, e2, bind_ok, e3]
+  unfold withCapacity
+  split <;> simp [Outcome.addAlloc, GV.Dec.bind]
+
+/-- the unrepaired reader panicked (capacity overflow) on a 16-byte input, with either reader -/
+theorem merkleProofUnrepaired_panics (rd : Rdr) :
+    merkleProofUnrepaired rd (mpWitness (2^58)) = .panic .capacityOverflow 0 := by
+  rw [merkleProof_on_witness rd (2^58) (by decide) (by decide)]
+  rw [if_pos (by decide)]
+
+/-- the unrepaired reader: 16 bytes in, at least 128 GiB requested -/
+theorem merkleProofUnrepaired_alloc_witness (rd : Rdr) :
+    (mpWitness (2^32)).length = 16 ∧ (merkleProofUnrepaired rd (mpWitness (2^32))).alloc ≥ 2^37 := by
+  refine ⟨mpWitness_length _, ?_⟩
+  rw [merkleProof_on_witness rd (2^32) (by decide) (by decide), if_neg (by decide)]
+  simp only [Outcome.alloc]; omega
+
+/-- the repaired reader on the same witnesses: an `IOErr` with at most 2 KiB + one hash requested -/
+theorem merkleProof_on_old_witness (rd : Rdr) (n : Nat) (h0 : 0 < n) (h : n < 2^64) :
+    merkleProof rd (mpWitness n) =
+      .err .ioEof (min n MERKLE_PREALLOC * 32 + (match rd with | .bin => 32 | .buf => 0)) := by
   have e1 : rU64 (mpWitness n) = .ok 0 (writeU64 n) 0 := rU64_write 0 (Nat.pow_pos (by omega)) _
   have e2 := rU64_write_nil n h
   have e3 := readN_hash_nil rd n h0
   unfold merkleProof
   rw [e1, bind_ok, e2, bind_ok, e3]
   unfold withCapacity
-  split <;> simp [Outcome.addAlloc, GV.Dec.bind]
-
-/-- **`MerkleProof::read` can panic** (capacity overflow) on a 16-byte input, with either reader. -/
-theorem merkleProof_panics (rd : Rdr) :
-    merkleProof rd (mpWitness (2^58)) = .panic .capacityOverflow 0 := by
-  rw [merkleProof_on_witness rd (2^58) (by decide) (by decide)]
-  rw [if_pos (by decide)]
-
-/-- **`MerkleProof::read` requests memory unrelated to the input length**: whatever linear bound
-`c * len + k` (below 2^57, i.e. any bound that is not itself absurd) one proposes, a 16-byte input exceeds it. -/
-theorem merkleProof_alloc_unbounded (rd : Rdr) (c k : Nat) (hck : c * 16 + k < 2^57) :
-    ∃ bs : Bytes, bs.length = 16 ∧ (∀ b ∈ bs, b < 256) ∧ (merkleProof rd bs).isPanic = false ∧
-      (merkleProof rd bs).alloc > c * bs.length + k := by
-  refine ⟨mpWitness (c * 16 + k + 1), mpWitness_length _, ?_, ?_, ?_⟩
-  · intro b hb
-    simp only [mpWitness, List.mem_append] at hb
-    rcases hb with hb | hb
-    · exact writeU64_bytes _ b hb
-    · exact writeU64_bytes _ b hb
-  · rw [merkleProof_on_witness rd _ (by omega) (by omega)]
-    have : ISIZE_MAX = 9223372036854775807 := by decide
-    rw [if_neg (by omega)]; rfl
-  · rw [merkleProof_on_witness rd _ (by omega) (by omega)]
-    have : ISIZE_MAX = 9223372036854775807 := by decide
-    rw [if_neg (by omega), mpWitness_length]
-    simp only [Outcome.alloc]; omega
-
-/-- concrete instance: 16 bytes in, 128 GiB requested -/
-theorem merkleProof_alloc_witness (rd : Rdr) :
-    (mpWitness (2^32)).length = 16 ∧ (merkleProof rd (mpWitness (2^32))).alloc ≥ 2^37 := by
-  refine ⟨mpWitness_length _, ?_⟩
-  rw [merkleProof_on_witness rd (2^32) (by decide) (by decide), if_neg (by decide)]
-  simp only [Outcome.alloc]; omega
-
-/-- apart from the `with_capacity`, `MerkleProof::read` is the bounded, panic-free reader -/
-theorem merkleProof_eq_noPrealloc (rd : Rdr) (bs : Bytes) :
-    merkleProof rd bs =
-      bind (rU64 bs) fun mmrSize r => bind (rU64 r) fun pathLen r =>
-        withCapacity pathLen 32 (bind (readN (rHash rd) pathLen r) fun path r =>
-          .ok { mmrSize := mmrSize, path := path } r 0) := rfl
+  have : MERKLE_PREALLOC = 64 := rfl
+  have : ISIZE_MAX = 9223372036854775807 := by decide
+  rw [if_neg (by omega)]
+  simp [Outcome.addAlloc, GV.Dec.bind]
 
 /-! ### `util::from_hex` -/
 
-/-- `"€a"`: even byte length, first slice ends inside the 3-byte character -/
-theorem utilFromHex_panics : utilFromHex [0xE2, 0x82, 0xAC, 0x61] = .panic .charBoundary := by decide
+/-- `"€a"` (the old char-boundary panic), `"zz"`, `"0"`: plain errors now -/
+theorem utilFromHex_old_witness : utilFromHex [0xE2, 0x82, 0xAC, 0x61] = .err := by decide
 
-/-- `"zz"`: `util::from_hex` is an `Err`, which `MerkleProof::from_hex` unwraps -/
-theorem merkleProofFromHex_panics : (merkleProofFromHex [0x7a, 0x7a]).isPanic = true := by decide
+theorem merkleProofFromHex_old_witnesses :
+    (merkleProofFromHex [0x7a, 0x7a]).isPanic = false ∧ (merkleProofFromHex [0x30]).isPanic = false ∧
+    (merkleProofFromHex [0xE2, 0x82, 0xAC, 0x61]).isPanic = false := by decide
 
-/-- odd length is an `Err` too -/
-theorem merkleProofFromHex_panics_odd : (merkleProofFromHex [0x30]).isPanic = true := by decide
+/-- the loop itself still slices by byte offsets: without the `is_ascii` guard it panics -/
+theorem hexLoop_needs_guard : hexLoop [0xE2, 0x82, 0xAC, 0x61] = .panic .charBoundary := by decide
 
 theorem hexLoop_ascii_noPanic : ∀ (n : Nat) (s : Bytes), s.length = 2 * n → (∀ b ∈ s, b < 128) →
     ∀ st, hexLoop s ≠ .panic st := by
@@ -166,17 +166,34 @@ theorem mem_trim0x : ∀ (s : Bytes), ∀ b ∈ trim0x s, b ∈ s := by
   | case1 r ih => intro b hb; simp [ih b hb]
   | case2 s _ => intro b hb; exact hb
 
-/-- **`util::from_hex` never panics on an ASCII string** (every byte `< 128`) -/
-theorem utilFromHex_ascii_noPanic (s : Bytes) (h : ∀ b ∈ s, b < 128) : ∀ st, utilFromHex s ≠ .panic st := by
+/-- **`util::from_hex` never panics**, on any string: non-ASCII input is refused before the slicing loop -/
+theorem utilFromHex_noPanic (s : Bytes) : ∀ st, utilFromHex s ≠ .panic st := by
   intro st
   unfold utilFromHex
   simp only
   split
   · simp
-  · rename_i hl
+  · rename_i hc
+    simp only [not_or, Bool.not_eq_false] at hc
+    obtain ⟨hl, ha⟩ := hc
     have hl' : (trim0x (strTrim s)).length % 2 = 0 := by omega
     have : (trim0x (strTrim s)).length = 2 * ((trim0x (strTrim s)).length / 2) := by omega
-    exact hexLoop_ascii_noPanic _ _ this (fun b hb => h b (mem_strTrim s b (mem_trim0x _ b hb))) st
+    have hall : ∀ b ∈ trim0x (strTrim s), b < 128 := by
+      intro b hb
+      have := List.all_eq_true.mp ha b hb
+      exact of_decide_eq_true this
+    exact hexLoop_ascii_noPanic _ _ this hall st
+
+/-- **`MerkleProof::from_hex` never panics** -/
+theorem merkleProofFromHex_noPanic (s : Bytes) : (merkleProofFromHex s).isPanic = false := by
+  unfold merkleProofFromHex
+  cases h : utilFromHex s with
+  | ok bytes =>
+    have := noPanic_merkleProof .bin bytes
+    simp only
+    cases hm : merkleProof .bin bytes <;> simp_all [Outcome.addAlloc, Outcome.isPanic]
+  | err => rfl
+  | panic st => exact absurd h (utilFromHex_noPanic s st)
 
 /-- bytes produced never exceed half the input; the error copy never exceeds the input -/
 theorem hexLoop_length : ∀ (n : Nat) (s : Bytes), s.length ≤ n → ∀ bs, hexLoop s = .ok bs → 2 * bs.length ≤ s.length := by
@@ -215,6 +232,25 @@ theorem hexLoop_length : ∀ (n : Nat) (s : Bytes), s.length ≤ n → ∀ bs, h
               rw [← h]; simp at this ⊢; omega
             | err => simp [hh] at h
             | panic s' => simp [hh] at h
+
+/-- allocation of `MerkleProof::from_hex`: at most the (trimmed) string length plus the capped
+pre-allocation of `MerkleProof::read` -/
+theorem merkleProofFromHex_alloc (s : Bytes) :
+    (merkleProofFromHex s).alloc ≤ (trim0x (strTrim s)).length + 2080 := by
+  unfold merkleProofFromHex
+  cases h : utilFromHex s with
+  | ok bytes =>
+    have hb := (bnd_merkleProof .bin).alloc_le bytes
+    have hl : 2 * bytes.length ≤ (trim0x (strTrim s)).length := by
+      unfold utilFromHex at h
+      simp only at h
+      split at h
+      · simp at h
+      · exact hexLoop_length _ _ (Nat.le_refl _) bytes h
+    simp only
+    cases hm : merkleProof .bin bytes <;> simp only [hm, Outcome.alloc, Outcome.addAlloc] at hb ⊢ <;> omega
+  | err => simp only [Outcome.alloc]; omega
+  | panic st => simp [Outcome.alloc]
 
 /-! ### `Segment` / `SegmentProof` readers -/
 
